@@ -18,6 +18,13 @@ def chk(pid, engine, cat, text, tech, ref, note=TRUST_E1):
 chk("C01", E1, "exploration",
     "Seeded search over delivery schedules (10 strategies, skewed starts, serial/concurrent dispatch, loud and silent mode) of complete BLS key generations through the real orchestrator/synchroniser/reliable broadcast/buffer, 2<=t<=n<=4 (thorough: 6); after each run the documented flow (load stored data, ThresholdPK, Sign, AggregateSignatures, Verify) is executed for 5 digests and every subset of size >= t, and public material is compared byte for byte.",
     "deterministic simulation (synctest bubble, seeded scheduler over per-link FIFO queues) + exhaustive subset oracle with real pairing crypto", "DESIGN.md §4 C01")
+BYZ = "Sessions (KeyGen or Sign, N=3..4, thorough ..6) of real Schemes with a scripted backend in which 1..N-2 participants are Byzantine: they run the real stack, but everything they transmit passes an adversary (equivocation per destination, forged acknowledgements about themselves / others / unseen digests placed before or after the payload, replays, mutated and withheld acknowledgements) and outsiders (configured non-participants, unknown ids) inject traffic; all interleaved by 10 scheduling strategies. "
+chk("C02", E1, "exploration",
+    BYZ + "Invariant over the hand-off log of honest backends: for each (session, attributed sender, receiver-classified round) all payloads handed over are byte-identical.",
+    "deterministic simulation with Byzantine fault injection, agreement invariant on recorded hand-offs", "DESIGN.md §4 C02")
+chk("C03", E1, "exploration",
+    BYZ + "Plus honest-only sessions. Oracle over hand-off log vs the simulator's post-adversary wire log: attributed sender is a participant and transmitted exactly that payload directly to this party; at most one hand-off per (party, sender, round); never empty/nil (a nil placeholder panics in the orchestrator and is captured); p2p hand-offs match received messages in content, source and multiplicity.",
+    "deterministic simulation with Byzantine fault injection, integrity oracle (hand-off log vs wire log)", "DESIGN.md §4 C03")
 chk("C04", E1, "exploration",
     "Seeded search over delivery schedules of fault-free KeyGen/Sign sessions (n=2..5, loud and silent mode, serial and concurrent dispatch, free-running multi-round scripted backend so that several senders and rounds are in flight) through the real orchestrator, synchroniser, reliable broadcast and silent-mode buffer; after all queues drained the hand-off log of every backend is compared with what was emitted (exactly once, right attribution, nothing else, no equivocation conclusion).",
     "deterministic simulation (synctest bubble, seeded scheduler over per-link FIFO queues), post-run hand-off oracle", "DESIGN.md §4 C04")
